@@ -752,6 +752,36 @@ func typeShort(t types.Type) string {
 // same SSA value; otherwise field f of the object the base designates.
 func (s *Sym) loadField(fa *ssa.FieldAddr, at ssa.Instruction) *Term {
 	fname := fieldName(fa.X.Type(), fa.Field)
+	if al, isAlloc := fa.X.(*ssa.Alloc); isAlloc {
+		// local struct variable (e.g. a spilled value receiver): a store to this
+		// very field that is the closest dominating definition is forwarded
+		var defs []ssa.Instruction
+		for _, r := range *al.Referrers() {
+			switch r := r.(type) {
+			case *ssa.Store:
+				if r.Addr == al {
+					defs = append(defs, r)
+				}
+			case *ssa.FieldAddr:
+				if r.Field == fa.Field {
+					for _, rr := range *r.Referrers() {
+						if st, ok := rr.(*ssa.Store); ok && st.Addr == r {
+							defs = append(defs, st)
+						}
+					}
+				}
+			case ssa.CallInstruction:
+				if !readOnlyCall(r) {
+					defs = append(defs, r)
+				}
+			}
+		}
+		if d := closestDominating(defs, at); d != nil {
+			if st, ok := d.(*ssa.Store); ok && st.Addr != al {
+				return s.Of(st.Val)
+			}
+		}
+	}
 	if _, isAlloc := fa.X.(*ssa.Alloc); !isAlloc {
 		// stores to the same (base value, field) in this function
 		var defs []ssa.Instruction
@@ -1084,9 +1114,46 @@ func (s *Sym) builderTerm(b ssa.Value, until ssa.Instruction) *Term {
 		term *Term
 	}
 	var sides []sidePart
-	for _, c := range side {
-		t := s.builderCall(c)
-		sides = append(sides, sidePart{c, T("each", "", t)})
+	{
+		// group the calls that do not dominate the end (loop bodies, branch
+		// arms) by basic block: one block = one sequence; several blocks = the
+		// arms of a branch, each labelled with its nearest guard
+		byBlock := map[*ssa.BasicBlock][]ssa.CallInstruction{}
+		var blocks []*ssa.BasicBlock
+		for _, c := range side {
+			if _, ok := byBlock[c.Block()]; !ok {
+				blocks = append(blocks, c.Block())
+			}
+			byBlock[c.Block()] = append(byBlock[c.Block()], c)
+		}
+		sort.Slice(blocks, func(i, j int) bool { return blocks[i].Index < blocks[j].Index })
+		var arms []*Term
+		var first ssa.CallInstruction
+		for _, b := range blocks {
+			cs := byBlock[b]
+			sort.SliceStable(cs, func(i, j int) bool { return dominates(cs[i], cs[j]) })
+			if first == nil {
+				first = cs[0]
+			}
+			var seq []*Term
+			for _, c := range cs {
+				seq = append(seq, s.builderCall(c))
+			}
+			arm := catTerms(seq...)
+			if len(blocks) > 1 {
+				guard := "?"
+				if fs := s.ff.At(b); len(fs) > 0 {
+					guard = fmt.Sprintf("%v:%s", fs[0].Pol, s.Of(fs[0].V).String())
+				}
+				arm = &Term{Op: "arm", Name: guard, Args: []*Term{arm}}
+			}
+			arms = append(arms, arm)
+		}
+		if len(arms) == 1 {
+			sides = append(sides, sidePart{first, T("each", "", arms[0])})
+		} else if len(arms) > 1 {
+			sides = append(sides, sidePart{first, T("each", "", &Term{Op: "alt", Args: arms})})
+		}
 	}
 	emitSidesBefore := func(at ssa.Instruction) {
 		rest := sides[:0]
